@@ -4,7 +4,12 @@
       "vals":{"dflt":s,"fileP":s,"fileS":s,"envP":s,"envS":s,"cmdS":s,"ovr":s,"cmdP":[s,..]},
       "val":s,"src":s,"val0":s,"src0":s}
    c and vals are what the check handed to the process (environment, parameter file, --mca options, override); val/src
-   = value and source reported after the override was applied, val0/src0 before.
+   = value and source reported after the override was applied, val0/src0 before.  When c.rereg the event also has
+   "curr","valr","srcr" (the parameter registered a second time before the override: the current value returned by that
+   registration, then value and source looked up) and "val2","src2" (registered once more after the override).
+     {"e":"pair","id":N,"via":..,"p":{order,type,fileB},"cmd":[value of the i-th --mca option],"dflt":{"A":s,"B":s},
+      "file":{"A":"","B":s},"res":{"A":{"val":s,"src":s},"B":{"val":s,"src":s}}}
+   two parameters with names N and N_x: each must resolve from its own options only (OwnCase / OwnPositions).
    Level "prop": the value is the one of an allowed source of the winning level and the reported source is that level;
    Level "code": the value is exactly the one the transcription of the lookup order selects (conformance only). *)
 EXTENDS McaParam, IOUtils
@@ -21,14 +26,30 @@ Ok(ev, c, val, src) ==
     IF Level_ = "prop" THEN /\ \E tag \in AllowedTags(c) : val = Concrete(ev, tag)
                             /\ src = Level(c)
     ELSE val = Concrete(ev, Predicted(c)) /\ src = SourceOf(Predicted(c))
-TInit == case = (CHOOSE c \in Cases : TRUE) /\ done = FALSE /\ l = 1
+TInit == case = (CHOOSE c \in Cases : TRUE) /\ pair = NoPair /\ done = FALSE /\ l = 1
 TCase == /\ l <= Len(TraceLog) /\ Ev.e = "case" /\ l' = l + 1
          /\ Ev.c \in Cases /\ Len(Ev.vals.cmdP) = Ev.c.cmdP
          /\ Ok(Ev, Ev.c, Ev.val, Ev.src)
          /\ Ok(Ev, [Ev.c EXCEPT !.ovr = FALSE], Ev.val0, Ev.src0)
-         /\ case' = Ev.c /\ UNCHANGED done
-TReset == l <= Len(TraceLog) /\ Ev.e = "Reset" /\ l' = l + 1 /\ UNCHANGED <<case, done>>
-TNext == TCase \/ TReset
-TSpec == TInit /\ [][TNext]_<<case, done, l>>
+         \* a second registration under the same name does not change the effective value
+         /\ Ev.c.rereg => /\ Ok(Ev, [Ev.c EXCEPT !.ovr = FALSE], Ev.valr, Ev.srcr)
+                           /\ Ok(Ev, [Ev.c EXCEPT !.ovr = FALSE], Ev.curr, Ev.srcr)
+                           /\ Ok(Ev, Ev.c, Ev.val2, Ev.src2)
+         /\ case' = Ev.c /\ UNCHANGED <<pair, done>>
+\* the value a parameter of a pair gets from a source: its own --mca options joined in the order given
+OwnValues(ev, w) == [k \in 1..Len(OwnPositions(ev.p, w)) |-> ev.cmd[OwnPositions(ev.p, w)[k]]]
+PairConcrete(ev, w, tag) == IF tag = "cmdP" THEN (IF ev.p.type = "string" THEN Join(OwnValues(ev, w)) ELSE OwnValues(ev, w)[1])
+                            ELSE IF tag = "fileP" THEN ev.file[w] ELSE ev.dflt[w]
+PairOk(ev, w) == LET c == OwnCase(ev.p, w)
+                 IN IF Level_ = "prop" THEN /\ \E tag \in AllowedTags(c) : ev.res[w].val = PairConcrete(ev, w, tag)
+                                            /\ ev.res[w].src = Level(c)
+                    ELSE ev.res[w].val = PairConcrete(ev, w, Predicted(c)) /\ ev.res[w].src = SourceOf(Predicted(c))
+TPair == /\ l <= Len(TraceLog) /\ Ev.e = "pair" /\ l' = l + 1
+         /\ Ev.p \in PairBox /\ Len(Ev.cmd) = Len(Ev.p.order)
+         /\ \A w \in Who : PairOk(Ev, w)
+         /\ pair' = Ev.p /\ UNCHANGED <<case, done>>
+TReset == l <= Len(TraceLog) /\ Ev.e = "Reset" /\ l' = l + 1 /\ UNCHANGED <<case, pair, done>>
+TNext == TCase \/ TPair \/ TReset
+TSpec == TInit /\ [][TNext]_<<case, pair, done, l>>
 AcceptExit == (l > Len(TraceLog)) => (PrintT("VERIF-ACCEPTED") /\ TLCSet("exit", TRUE))
 ==============================================================================
